@@ -93,6 +93,78 @@ def random_grammar(rng, names="plain", payload="usize", derive=True, max_nt=4, m
     return items + rest
 
 
+def nesting_grammar(rng, derive=True):
+    """One or two recursive enums whose variants share a leading terminal (bracket-like nesting with
+    optional closers): self-loops in the automaton whose lookaheads arrive late, conflicts that
+    depend on merged lookaheads.  Terminal names are drawn at random, so their order varies."""
+    tn = rng.sample(["Open", "Close", "Atom", "Sep", "Bar", "Zed", "Aa", "Mm"], rng.randint(2, 4))
+    nts = rng.sample(["A", "B", "Q"], rng.randint(1, 2))
+    attrs = ["#[derive(Debug)]"] if derive else []
+    items = [{"kind": "start", "name": nts[0]}]
+    for nt in nts:
+        lead = sym_t(rng.choice(tn))
+        seen, variants = set(), []
+        for vi in range(rng.randint(2, 4)):
+            for _ in range(10):
+                n = rng.randint(0, 3)
+                body = []
+                for _ in range(n):
+                    body.append(sym_n(rng.choice(nts)) if rng.random() < 0.4 else sym_t(rng.choice(tn)))
+                rhs = ([lead] if rng.random() < 0.75 else []) + body
+                key = tuple(sym_key(x) for x in rhs)
+                if key not in seen:
+                    seen.add(key)
+                    fs = {"kind": "empty"} if not rhs else {"kind": "tuple", "fields": [{"used": rng.random() < 0.7, "sym": x} for x in rhs]}
+                    variants.append({"name": f"V{vi}", "fieldset": fs})
+                    break
+        items.append({"kind": "enum", "attrs": list(attrs), "name": nt, "variants": variants})
+    items.append({"kind": "terminal", "attrs": list(attrs), "name": "Tok", "variants": [{"name": t, "type": "usize"} for t in tn]})
+    return items
+
+
+def layered_grammar(rng, derive=True):
+    """Nonterminals N0..Nk declared top-down, each a struct (or a 2-variant enum) whose right-hand
+    side refers only to later nonterminals and to terminals; many are empty.  Nullability and FIRST
+    sets then propagate bottom-up against the declaration order, needing several fixpoint passes,
+    some of which change nullability only."""
+    k = rng.randint(2, 6)
+    lead_nt = rng.random() < 0.6      # every non-empty right-hand side starts with a nonterminal
+    nts = [f"N{i}" for i in range(k)]
+    nt_ = rng.randint(1, 3)
+    ts = [f"T{i}" for i in range(nt_)]
+    attrs = ["#[derive(Debug)]"] if derive else []
+    items = [{"kind": "start", "name": nts[0]}]
+    for i, nt in enumerate(nts):
+        later = nts[i + 1:]
+
+        def rhs():
+            if not later or rng.random() < 0.3:
+                return [] if (rng.random() < 0.6 or lead_nt) else [sym_t(rng.choice(ts))]
+            n = rng.randint(1, 3)
+            out = []
+            for j in range(n):
+                out.append(sym_n(rng.choice(later)) if (rng.random() < 0.75 or (lead_nt and j == 0)) else sym_t(rng.choice(ts)))
+            if rng.random() < 0.5:
+                out.append(sym_t(rng.choice(ts)))
+            return out
+
+        def fs(syms):
+            if not syms:
+                return {"kind": "empty"}
+            return {"kind": "tuple", "fields": [{"used": rng.random() < 0.8, "sym": x} for x in syms]}
+
+        if rng.random() < 0.75:
+            items.append({"kind": "struct", "attrs": list(attrs), "name": nt, "fieldset": fs(rhs())})
+        else:
+            a, b = rhs(), rhs()
+            vs = [{"name": "A", "fieldset": fs(a)}]
+            if [sym_key(x) for x in b] != [sym_key(x) for x in a]:
+                vs.append({"name": "B", "fieldset": fs(b)})
+            items.append({"kind": "enum", "attrs": list(attrs), "name": nt, "variants": vs})
+    items.append({"kind": "terminal", "attrs": list(attrs), "name": "Tok", "variants": [{"name": t, "type": "usize"} for t in ts]})
+    return items
+
+
 # ---- hand-written families that separate the grammar classes -------------------------------
 
 def _mk(start, structs_enums, terminals, derive=True):
